@@ -4,9 +4,11 @@ import os
 import shutil
 
 from .. import env, gen, refmodel as R, findings
-from ..common import F, G, flags_of, shape
+from ..common import F, G, flags_of, shape, pathlib_mask
 from wcmatch import pathlib as WP, wcmatch as WM
 from .c02 import pathspec
+
+PATHLIB_MASK = pathlib_mask()
 
 SPEC = {
     'rule': ('the C01 and C02 pattern generators are run against name/path universes biased to hidden and special segments '
@@ -127,7 +129,7 @@ def gl_check(ctx, toks, fnames, idx, pathlib_too=False):
             # PurePath.match: right-anchored form (implicit leading recursive segment); pathlib normalises the path text
             pp = WP.PurePosixPath(path)
             eff = str(pp)
-            pflags = flags & WP.FLAG_MASK
+            pflags = flags & PATHLIB_MASK
             ps2 = pathspec(fn)
             ps2.extmatchbase = True
             exp2 = R.path_match3(toks, eff, ps2)
@@ -434,7 +436,7 @@ def replay(ctx, w):
             ps = pathspec(tuple(w['flags']))
             if api == 'PurePath.match':
                 ps.extmatchbase = True
-                got = WP.PurePosixPath(w['path']).match(w['pattern'], flags=flags_of(w['flags']) & WP.FLAG_MASK)
+                got = WP.PurePosixPath(w['path']).match(w['pattern'], flags=flags_of(w['flags']) & PATHLIB_MASK)
             else:
                 got = G.globmatch(w['path'], w['pattern'], flags=flags_of(w['flags']))
             exp = R.path_match3(w['ast'], w['path'], ps)
